@@ -37,6 +37,13 @@
 // influence matching. For these two ops the harness deliberately modifies a release it got from
 // the driver, as the actions do (everywhere else it never touches a release after handing it over).
 //
+// Replayed writes (call.Same): the ordinary generator draws a fresh content for every write, so the
+// content handed to Create/Update would never coincide with what the key already holds. addReplays
+// adds creates/updates whose content is identical to the release stored at their key (the same
+// operation issued twice, two identical installers) and creates that put back the content last
+// deleted from the key. The oracle is the same map: Create of a stored key fails with
+// already-exists WHATEVER the content, Update of a stored key succeeds, a deleted key is free again.
+//
 // After a backend's answer to a MUTATING call differs from the reference (e.g. a Delete that
 // wrongly fails) its state has diverged; the violation is reported once and the backend is no longer
 // compared for the rest of that sequence (counted as backend_desynced) so that one cause does not
@@ -73,7 +80,7 @@ func init() {
 	core.Register(&core.Prop{
 		ID:    "C10",
 		Level: "exploration",
-		Rule: "call sequences of 10-60 calls (Create/Get/Update/Delete/List/Query at driver level through storage.Storage, plus History/Last/Deployed/DeployedAll, plus write-backs of releases OBTAINED from List/Query/History/Last: status change + Update, and upgrade-shaped sequences that carry the obtained label map into a new revision, each followed by status/version/name queries) over 2-4 generated release names x revisions 1-5, " +
+		Rule: "call sequences of 10-60 calls (Create/Get/Update/Delete/List/Query at driver level through storage.Storage, plus History/Last/Deployed/DeployedAll, plus write-backs of releases OBTAINED from List/Query/History/Last: status change + Update, and upgrade-shaped sequences that carry the obtained label map into a new revision, each followed by status/version/name queries; plus replayed writes: creates and updates whose content is identical to the release stored at their key, and creates that put back the content last deleted from their key) over 2-4 generated release names x revisions 1-5, " +
 			"executed in lock-step on memory, secrets+configmaps on client-go's fake clientset, secrets+configmaps on the simulated API server, and a reference map; releases are generated (unicode/multi-MB manifests, nested config, hooks, chart with files/schema/lock/dependencies, user labels, nine statuses, zero/non-UTC timestamps). " +
 			"distinct_nontrivial counts distinct (name shapes, kinds of failing calls, kinds of multi-match queries) of sequences that contain at least one failing call and one query with >= 2 matches.",
 		Assumptions: []string{
@@ -113,11 +120,19 @@ type call struct {
 	Labels map[string]string // query
 	Via    string            // reupdate: list | query | history | last (how the release is obtained)
 	Extra  bool              // upgrade: add one more user label to the carried label map
+	// Same (create/update): the release written is content-identical (status, info, chart, config,
+	// manifest, hooks, user labels) to the one the reference holds at this key at that moment - a
+	// replay of the write that stored it - or, if the key is not stored, to the one last deleted
+	// from this key. If the key never held anything, Status/CSeed are used as in an ordinary write.
+	Same bool
 }
 
 func (c call) String() string {
 	switch c.Op {
 	case "create", "update":
+		if c.Same {
+			return fmt.Sprintf("%s(%s.v%d content identical to the release stored at / last deleted from this key; else status=%s content=%d)", c.Op, c.Name, c.Rev, c.Status, c.CSeed)
+		}
 		return fmt.Sprintf("%s(%s.v%d status=%s content=%d)", c.Op, c.Name, c.Rev, c.Status, c.CSeed)
 	case "get", "delete":
 		return fmt.Sprintf("%s(%s.v%d)", c.Op, c.Name, c.Rev)
@@ -257,7 +272,74 @@ func genSeq(seed int64) (names []string, calls []call) {
 			calls = append(calls, call{Op: "upgrade", Name: n, Status: st, CSeed: rng.Int63(), Extra: rng.Intn(2) == 0})
 		}
 	}
+	calls = addReplays(seed, calls)
 	return
+}
+
+// addReplays adds the input class "a write whose content coincides with what its key holds or
+// held": the generator above draws a fresh content for every write, so without this pass a Create
+// or Update never carries the content that is already stored. It uses its own random stream (the
+// sequences drawn above stay as they are) and
+//   - turns 40% of the creates of a key the sequence has created before into identical-content creates,
+//   - inserts, right after or a few calls after 12% of the writes, a replay of that write on the same
+//     key (create 2/3, update 1/3) with Same set: on a still-stored key the create must fail with
+//     already-exists and the update must succeed, both leaving the map as it is,
+//   - inserts, after 15% of the deletes, a create that puts the deleted content back (must succeed).
+func addReplays(seed int64, calls []call) []call {
+	rng := rand.New(rand.NewSource(seed ^ 0x2545F4914F6CDD1D))
+	type key struct {
+		n string
+		r int
+	}
+	type pending struct {
+		c     call
+		after int // emit when this many more original calls have been emitted
+	}
+	created := map[key]bool{}
+	var out []call
+	var queue []pending
+	for _, c := range calls {
+		k := key{c.Name, c.Rev}
+		switch c.Op {
+		case "create", "update":
+			if c.Op == "create" {
+				if created[k] && rng.Intn(100) < 40 {
+					c.Same = true
+				}
+				created[k] = true
+			}
+			if rng.Intn(100) < 12 {
+				r := call{Op: "create", Name: c.Name, Rev: c.Rev, Status: c.Status, CSeed: rng.Int63(), Same: true}
+				if rng.Intn(3) == 0 {
+					r.Op = "update"
+				}
+				d := 0
+				if rng.Intn(2) == 0 {
+					d = 1 + rng.Intn(5)
+				}
+				queue = append(queue, pending{r, d})
+			}
+		case "delete":
+			if created[k] && rng.Intn(100) < 15 {
+				queue = append(queue, pending{call{Op: "create", Name: c.Name, Rev: c.Rev, Status: pick(rng, allStatuses), CSeed: rng.Int63(), Same: true}, rng.Intn(3)})
+			}
+		}
+		out = append(out, c)
+		rest := queue[:0]
+		for _, p := range queue {
+			if p.after <= 0 {
+				out = append(out, p.c)
+			} else {
+				p.after--
+				rest = append(rest, p)
+			}
+		}
+		queue = rest
+	}
+	for _, p := range queue {
+		out = append(out, p.c)
+	}
+	return out
 }
 
 // ---------------------------------------------------------------- reference map
@@ -409,8 +491,52 @@ type seqRun struct {
 	failOps map[string]bool
 	multiQ  map[string]bool
 	step    int
-	cseed   map[rkey]int64 // content seed of every stored reference release (to rebuild it with another status)
-	touched []rkey         // keys changed by the current call (read back on every backend afterwards)
+	cseed   map[rkey]int64   // content seed of every stored reference release (to rebuild it with another status)
+	touched []rkey           // keys changed by the current call (read back on every backend afterwards)
+	gone    map[rkey]written // content last deleted from a key
+	// pristine: the record every backend holds for the key was encoded from a harness-built
+	// mkRelease object (Create/Update), not from a release a backend handed out (write-backs): a
+	// replay with identical content then also yields the byte-identical record body. Evidence only.
+	pristine map[rkey]bool
+}
+
+// written is what a create/update call writes.
+type written struct {
+	st     release.Status
+	cseed  int64
+	labels map[string]string // nil: the labels mkRelease generates from cseed
+	rel    string            // "" fresh content | "stored": identical to the stored release | "deleted": identical to the last deleted one
+}
+
+func (s *seqRun) resolve(c call) written {
+	if c.Same {
+		k := rkey{c.Name, c.Rev}
+		if r, ok := s.ref[k]; ok {
+			return written{st: r.Info.Status, cseed: s.cseed[k], labels: userLabels(r.Labels), rel: "stored"}
+		}
+		if w, ok := s.gone[k]; ok {
+			w.rel = "deleted"
+			return w
+		}
+	}
+	return written{st: c.Status, cseed: c.CSeed}
+}
+
+// mk builds a fresh release object for a create/update call (never shared between backends).
+func (s *seqRun) mk(c call) *release.Release {
+	w := s.resolve(c)
+	r := mkRelease(c.Name, ns, c.Rev, w.st, w.cseed)
+	if w.labels != nil {
+		r.Labels = copyLabels(w.labels)
+	}
+	return r
+}
+
+func (s *seqRun) contentTag(c call) string {
+	if s.resolve(c).rel == "stored" {
+		return " content=identical-to-stored"
+	}
+	return ""
 }
 
 func (s *seqRun) ctx(b *backend, c call) string {
@@ -512,16 +638,16 @@ func (s *seqRun) exec(c call) {
 			s.execWriteBack(b, c)
 		case "create":
 			var err error
-			if core.Guard(s.res, b.name+" Create", func() { err = b.st.Create(mkRelease(c.Name, ns, c.Rev, c.Status, c.CSeed)) }) {
+			if core.Guard(s.res, b.name+" Create", func() { err = b.st.Create(s.mk(c)) }) {
 				b.desynced = true
 				continue
 			}
 			if has {
 				if err == nil {
-					s.add(b, "create-existing-succeeded", "Create "+keyShape(c), "Create of an existing key returned nil | %s", s.ctx(b, c))
+					s.add(b, "create-existing-succeeded", "Create "+keyShape(c)+s.contentTag(c), "Create of an existing key returned nil | %s", s.ctx(b, c))
 					b.desynced = true
 				} else if !errors.Is(err, driver.ErrReleaseExists) {
-					s.add(b, "create-existing-wrong-error", "Create "+keyShape(c)+" err="+errClass(err), "Create of an existing key failed with %v, not already-exists | %s", err, s.ctx(b, c))
+					s.add(b, "create-existing-wrong-error", "Create "+keyShape(c)+s.contentTag(c)+" err="+errClass(err), "Create of an existing key failed with %v, not already-exists | %s", err, s.ctx(b, c))
 				}
 				s.auditAfterFail(b, c)
 			} else if err != nil {
@@ -530,7 +656,7 @@ func (s *seqRun) exec(c call) {
 			}
 		case "update":
 			var err error
-			if core.Guard(s.res, b.name+" Update", func() { err = b.st.Update(mkRelease(c.Name, ns, c.Rev, c.Status, c.CSeed)) }) {
+			if core.Guard(s.res, b.name+" Update", func() { err = b.st.Update(s.mk(c)) }) {
 				b.desynced = true
 				continue
 			}
@@ -838,6 +964,7 @@ func (s *seqRun) applyRef(c call) {
 	case "reupdate":
 		if k, ok := s.target(c); ok {
 			s.ref[k] = s.rebuild(k, c.Status, s.ref[k].Labels)
+			s.pristine[k] = false
 			s.touched = append(s.touched, k)
 			s.res.Stat("write_back_updates/"+c.Via, 1)
 		} else {
@@ -853,23 +980,41 @@ func (s *seqRun) applyRef(c call) {
 			s.ref[prev] = s.rebuild(prev, release.StatusSuperseded, rl.Labels)
 			s.cseed[next] = c.CSeed
 			s.ref[next] = s.rebuild(next, c.Status, carried)
+			s.pristine[prev], s.pristine[next] = false, true
 			s.touched = append(s.touched, prev, next)
 			s.res.Stat("upgrade_shaped_write_backs", 1)
 		} else {
 			s.res.Stat("write_back_skipped_nothing_stored", 1)
 		}
 	case "create":
+		w := s.resolve(c)
 		if has {
 			s.failOps["create-existing"] = true
 			s.res.Stat("failing_calls_expected", 1)
+			if w.rel == "stored" {
+				s.failOps["create-existing-identical-content"] = true
+				s.res.Stat("identical_content/create_on_stored_key", 1)
+				if s.pristine[key] {
+					s.res.Stat("identical_content/create_on_stored_key_byte_identical_record", 1)
+				}
+			}
 		} else {
-			s.ref[key] = mkRelease(c.Name, ns, c.Rev, c.Status, c.CSeed)
-			s.cseed[key] = c.CSeed
+			s.ref[key] = s.mk(c)
+			s.cseed[key] = w.cseed
+			s.pristine[key] = true
+			if w.rel == "deleted" {
+				s.res.Stat("identical_content/create_of_last_deleted_content", 1)
+			}
 		}
 	case "update":
 		if has {
-			s.ref[key] = mkRelease(c.Name, ns, c.Rev, c.Status, c.CSeed)
-			s.cseed[key] = c.CSeed
+			w := s.resolve(c)
+			s.ref[key] = s.mk(c)
+			s.cseed[key] = w.cseed
+			s.pristine[key] = true
+			if w.rel == "stored" {
+				s.res.Stat("identical_content/update_of_stored_key", 1)
+			}
 		} else {
 			s.failOps["update-missing"] = true
 			s.res.Stat("failing_calls_expected", 1)
@@ -881,8 +1026,10 @@ func (s *seqRun) applyRef(c call) {
 		}
 	case "delete":
 		if has {
+			s.gone[key] = written{st: s.ref[key].Info.Status, cseed: s.cseed[key], labels: userLabels(s.ref[key].Labels)}
 			delete(s.ref, key)
 			delete(s.cseed, key)
+			delete(s.pristine, key)
 		} else {
 			s.failOps["delete-missing"] = true
 			s.res.Stat("failing_calls_expected", 1)
@@ -922,7 +1069,7 @@ func runSeq(res *core.Result, seed int64, verbose bool) {
 			return
 		}
 	}
-	s := &seqRun{res: res, seed: seed, names: names, calls: calls, ref: refKV{}, bks: mkBackends(), verbose: verbose, failOps: map[string]bool{}, multiQ: map[string]bool{}, cseed: map[rkey]int64{}}
+	s := &seqRun{res: res, seed: seed, names: names, calls: calls, ref: refKV{}, bks: mkBackends(), verbose: verbose, failOps: map[string]bool{}, multiQ: map[string]bool{}, cseed: map[rkey]int64{}, gone: map[rkey]written{}, pristine: map[rkey]bool{}}
 	if verbose {
 		fmt.Printf("sequence seed %d names %q (%d calls)\n", seed, names, len(calls))
 	}
@@ -1074,6 +1221,10 @@ func post(a *core.Agg) string {
 	}
 	if a.Stats["failing_calls_expected"] < 100 || a.Stats["multi_match_queries"] < 100 || a.Stats["round_trips_equal"] < 1000 {
 		return fmt.Sprintf("too few relevant events: failing calls %d, multi-match queries %d, equal round trips %d", a.Stats["failing_calls_expected"], a.Stats["multi_match_queries"], a.Stats["round_trips_equal"])
+	}
+	if a.Stats["identical_content/create_on_stored_key_byte_identical_record"] < 40 || a.Stats["identical_content/update_of_stored_key"] < 15 || a.Stats["identical_content/create_of_last_deleted_content"] < 15 {
+		return fmt.Sprintf("too few writes with content identical to what their key holds/held: creates on a stored key %d (byte-identical record %d), updates %d, creates of the last deleted content %d",
+			a.Stats["identical_content/create_on_stored_key"], a.Stats["identical_content/create_on_stored_key_byte_identical_record"], a.Stats["identical_content/update_of_stored_key"], a.Stats["identical_content/create_of_last_deleted_content"])
 	}
 	return ""
 }
